@@ -48,7 +48,11 @@ VALUES = [None, 0, 3, "x", [1, 2], {"tuple": [1, 2]}, {"tuple": []}, {"tuple": [
 
 
 def dv(v):
-    """JSON has no tuples: {"tuple": [...]} stands for one (a result like any other)."""
+    """JSON has no tuples: {"tuple": [...]} stands for one (a result like any other); {"huge": n} for 10**n, an int
+    Python refuses to turn into decimal text (more than 4300 digits) - a result like any other as long as nobody
+    needs its repr."""
+    if isinstance(v, dict) and "huge" in v:
+        return 10 ** v["huge"]
     return tuple(v["tuple"]) if isinstance(v, dict) and "tuple" in v else v
 
 
@@ -138,6 +142,10 @@ def make_deferred(init):
     return d, state, inner
 
 
+def norepr(state):
+    return state[0] == "value" and isinstance(state[1], int) and state[1].bit_length() > 10000
+
+
 def x_history(ctx, case):
     from twisted.python import log as tlog
     from testtools.twistedsupport import has_no_result, succeeded, failed
@@ -165,8 +173,14 @@ def x_history(ctx, case):
                 verdicts.append("match raised %r" % (e,))
             d.addErrback(lambda _: None)
         want = [state[0] == "unfired", state[0] == "value", state[0] == "failure"]
-        ctx.check(verdicts == want and sum(verdicts) == 1, "exactly-one-of-three-matches",
-                  lambda: {"verdicts": verdicts, "want": want, **detail()})
+        if norepr(state):
+            # the two that do not match would have to put the result's repr into their mismatch - there is none to be
+            # had; the one that matches needs no repr
+            ctx.check(verdicts[1] is True, "exactly-one-of-three-matches",
+                      lambda: {"verdicts": verdicts, "want": want, **detail()})
+        else:
+            ctx.check(verdicts == want and sum(verdicts) == 1, "exactly-one-of-three-matches",
+                      lambda: {"verdicts": verdicts, "want": want, **detail()})
         # ---- the history on one Deferred -------------------------------------------------------------
         d, state, inner = make_deferred(init)
         inspected_failure = False
@@ -190,8 +204,8 @@ def x_history(ctx, case):
                 else:
                     m = failed(inner_build(spec, E))
                     want = state[0] == "failure" and inner_sem(spec, state, E)
-                if want is None:
-                    continue
+                if want is None or (norepr(state) and not want):
+                    continue        # (a mismatch over a result that has no repr: cannot be described, not asked for)
                 try:
                     mm = m.match(d)
                     got = mm is None
@@ -424,6 +438,22 @@ def run(ctx):
                             n += 1
                             ctx.execute("history", {"init": init, "ops": [m1, mid, fire, m2, ["add_callback"]]})
     ctx.note_space("match, grow the chain, fire, match again: 5 x 3 x 3 x 5 x 2 five-step histories", n)
+    # a result whose repr cannot be had (an int of 4301 digits): matchers that match do not need it
+    n = 0
+    quiet = [["match", "succeeded", ["always"]], ["match", "failed", ["always"]], ["match", "no_result"],
+             ["add_callback"], ["extract"]]
+    for init in ({"state": "value", "value": {"huge": 4300}}, {"state": "value", "value": {"huge": 4300}, "callbacks_before": 2}):
+        for L in (1, 2, 3):
+            for seq in itertools.product(quiet, repeat=L):
+                if ctx.mine():
+                    n += 1
+                    ctx.execute("history", {"init": init, "ops": list(seq)})
+    for L in (1, 2):
+        for seq in itertools.product(quiet, repeat=L):
+            if ctx.mine():
+                n += 1
+                ctx.execute("history", {"init": {"state": "unfired"}, "ops": [["fire", {"huge": 4300}]] + list(seq)})
+    ctx.note_space("a result of 4301 decimal digits x matchers that match / do not look at it, sequences <= 3", n)
     n = 0
     for stage in ("setUp", "test", "tearDown", "cleanup"):
         for kind in ("ok", "fail", "error", "skip", "multi"):
